@@ -220,6 +220,19 @@ nni_msgq_aio_put(nni_msgq *mq, nni_aio *aio)
 {
 	nni_mtx_lock(&mq->mq_lock);
 
+	// If nobody is waiting ahead of us, and either a reader is waiting
+	// or there is room, then the operation completes right away: it need
+	// not be started (an instantaneous poll operation must succeed then).
+	if (nni_list_empty(&mq->mq_aio_putq) &&
+	    ((mq->mq_len < mq->mq_cap) ||
+	        !nni_list_empty(&mq->mq_aio_getq))) {
+		nni_aio_list_append(&mq->mq_aio_putq, aio);
+		nni_msgq_run_putq(mq);
+		nni_msgq_run_notify(mq);
+		nni_mtx_unlock(&mq->mq_lock);
+		return;
+	}
+
 	// If this is an instantaneous poll operation, and the queue has
 	// no room, nobody is waiting to receive, then report NNG_ETIMEDOUT.
 	if (!nni_aio_start(aio, nni_msgq_cancel, mq)) {
@@ -237,6 +250,17 @@ void
 nni_msgq_aio_get(nni_msgq *mq, nni_aio *aio)
 {
 	nni_mtx_lock(&mq->mq_lock);
+	// Likewise a read completes right away if no reader is waiting ahead
+	// of us and there is a message, buffered or held by a waiting writer.
+	if (nni_list_empty(&mq->mq_aio_getq) &&
+	    ((mq->mq_len != 0) || !nni_list_empty(&mq->mq_aio_putq))) {
+		nni_aio_list_append(&mq->mq_aio_getq, aio);
+		nni_msgq_run_getq(mq);
+		nni_msgq_run_putq(mq);
+		nni_msgq_run_notify(mq);
+		nni_mtx_unlock(&mq->mq_lock);
+		return;
+	}
 	if (!nni_aio_start(aio, nni_msgq_cancel, mq)) {
 		nni_mtx_unlock(&mq->mq_lock);
 		return;
